@@ -737,9 +737,10 @@ fn rs_scenario(profile: &str, seed: u64, ops: Vec<crate::rsender::RsOp>, tail_us
 
 /// The enumerated fault sub-space: m <= 4 messages (burst or spaced), one break at every frame
 /// position in either direction (lost or just received), 0..3 refused reconnections, one
-/// cancellation at every position (right after hand-over or after the traffic has flowed).
+/// cancellation at every position (right after hand-over, 2 ms later while acknowledgements are
+/// in flight, or after the traffic has flowed).
 pub fn c14_cases() -> usize {
-    (1..=4usize).map(|m| 2 * (1 + 4 * m) * 4 * (1 + 2 * m)).sum()
+    (1..=4usize).map(|m| 2 * (1 + 4 * m) * 4 * (1 + 3 * m)).sum()
 }
 
 pub fn c14_case(k: usize) -> Option<Scenario> {
@@ -747,7 +748,7 @@ pub fn c14_case(k: usize) -> Option<Scenario> {
     use crate::rsender::RsOp;
     let mut k = k;
     for m in 1..=4usize {
-        let size = 2 * (1 + 4 * m) * 4 * (1 + 2 * m);
+        let size = 2 * (1 + 4 * m) * 4 * (1 + 3 * m);
         if k >= size {
             k -= size;
             continue;
@@ -767,9 +768,11 @@ pub fn c14_case(k: usize) -> Option<Scenario> {
             }
         }
         if cancel > 0 {
-            let j = ((cancel - 1) / 2) as u32;
-            if (cancel - 1) % 2 == 1 {
-                ops.push(RsOp::Wait { us: 50_000 });
+            let j = ((cancel - 1) / 3) as u32;
+            match (cancel - 1) % 3 {
+                1 => ops.push(RsOp::Wait { us: 2_000 }),  // written, acknowledgement still in flight
+                2 => ops.push(RsOp::Wait { us: 50_000 }), // everything has flowed
+                _ => {}                                   // before anything was written
             }
             ops.push(RsOp::Cancel { id: j });
         }
